@@ -605,7 +605,11 @@ func (g *scopeProg) declNames(k string, strict bool, depth int, init bool) {
 		if k != "v" {
 			g.decl(k, g.plainNameOrArgs())
 		} else {
-			g.decl(k, g.name())
+			n := g.name()
+			if n == 0 {
+				g.f("var-arguments")
+			}
+			g.decl(k, n)
 		}
 		if init || g.r.Chance(1, 3) {
 			g.w(" = ")
@@ -776,7 +780,7 @@ func (g *scopeProg) stmt(strict bool, depth int, moduleTop bool) {
 		g.w(") ")
 		g.tok("(W")
 		g.budget--
-		g.stmtNoDecl(strict, depth-1)
+		g.stmtNoDecl(strict, depth-1, "with")
 		g.tok(")")
 	case 15:
 		if !nested || strict || g.esm {
@@ -841,7 +845,7 @@ func (g *scopeProg) stmt(strict bool, depth int, moduleTop bool) {
 			g.w("for (;;) ")
 		}
 		g.budget--
-		g.stmtNoDecl(strict, depth-1)
+		g.stmtNoDecl(strict, depth-1, "for")
 		g.tok(")")
 	case 17:
 		if !nested {
@@ -910,17 +914,24 @@ func (g *scopeProg) stmt(strict bool, depth int, moduleTop bool) {
 }
 
 // the body of with / for: any statement except a bare lexical declaration or function declaration
-func (g *scopeProg) stmtNoDecl(strict bool, depth int) {
+func (g *scopeProg) stmtNoDecl(strict bool, depth int, ctx string) {
 	r := g.r
 	switch r.Intn(4) {
 	case 0:
 		g.ref(g.name())
 		g.w(";")
 	case 1:
+		// a `var` directly in the body (for `with`: declared in the ScopeWith itself)
+		g.f(ctx + "-body-var")
+		n := g.name()
+		if n == 0 {
+			g.f("var-arguments")
+		}
 		g.w("var ")
-		g.decl("v", g.name())
+		g.decl("v", n)
 		g.w(";")
 	default:
+		g.f(ctx + "-body-block")
 		g.w("{ ")
 		g.tok("(B")
 		if depth > 0 {
